@@ -542,6 +542,61 @@ func runC16(p *core.Prog, r *core.Report) {
 	}
 	c16R2(p, r, fn)
 	c16R3R4(p, r)
+	c16R5(p, r)
+}
+
+// c16R5: the platform that is asked for is the platform that is selected for. A string parsed into a
+// platform and then dropped (a shadowed variable, a result only looked at in a condition) means the
+// selection runs with some other platform.
+func c16R5(p *core.Prog, r *core.Report) {
+	const rule = "C16.R5"
+	r.Rule(rule, "the requested platform reaches the selection: the result of every platform.Parse outside types/platform flows into an argument of a module function, a return value or a field (a result that is only compared is a request that was dropped)", 5)
+	n := 0
+	for _, fn := range p.ModFuncs {
+		if len(fn.Blocks) == 0 {
+			continue
+		}
+		if pk := core.FuncPkg(fn); pk == nil || pk.Path() == modPath("types/platform") {
+			continue
+		}
+		lab := labeler{}
+		for _, c := range core.CallsTo(fn, func(f *types.Func) bool { return core.IsModFunc(f, "types/platform", "Parse") }) {
+			call, ok := c.(*ssa.Call)
+			if !ok {
+				continue
+			}
+			var res ssa.Value
+			for _, ref := range *call.Referrers() {
+				if ex, ok := ref.(*ssa.Extract); ok && ex.Index == 0 {
+					res = ex
+				}
+			}
+			n++
+			label := lab.next("platform.Parse result")
+			used := false
+			if res != nil {
+				used = forwardFlow(p, res, func(cc ssa.CallInstruction, i int) bool {
+					g := core.Callee(cc)
+					return g != nil && g.Pkg() != nil && strings.HasPrefix(g.Pkg().Path(), modPath(".")) && !strings.HasPrefix(g.Pkg().Path(), modPath("types/platform")+"/") || g == nil
+				}, func(user ssa.Instruction, x ssa.Value) bool {
+					switch u := user.(type) {
+					case *ssa.Return:
+						return true
+					case *ssa.Store:
+						if fa, ok := u.Addr.(*ssa.FieldAddr); ok && u.Val == x {
+							_ = fa
+							return true
+						}
+					}
+					return false
+				})
+			}
+			r.Check(used, rule, p.FuncName(fn), label, p.Pos(call.Pos()), "the parsed platform is never handed on (it is at most compared): the selection that follows works with another platform than the one that was requested")
+		}
+	}
+	if n == 0 {
+		r.MissingAnchor(rule, "platform.Parse calls outside types/platform")
+	}
 }
 
 // c16R2: a Platform parameter is normalised before it is stored into the comparator (or any struct).
